@@ -3,11 +3,11 @@
 SEED=$1; shift
 P=/verif/seeded/$SEED/patch.diff
 [ -n "$(git -C /repo status --porcelain)" ] && { echo "/repo not clean"; exit 2; }
-git -C /repo apply $P 2>/dev/null || git -C /repo apply --3way $P || { echo "patch does not apply"; git -C /repo checkout -- .; exit 2; }
+git -C /repo apply $P 2>/dev/null || { echo "patch does not apply cleanly (base moved): rebase the seed"; git -C /repo reset -q --hard HEAD; exit 2; }
 for prop in "$@"; do
   echo "== $SEED vs $prop"
   ( cd /verif && timeout 1800 python3-vt checks/check.py $prop --tier ${TIER:-quick} 2>&1 | grep -v "^KNOWN-FINDING" | cut -c1-300 | head -${LINES_MAX:-12}; echo "rc=${PIPESTATUS[0]}" )
 done
-git -C /repo checkout -q -- . ; git -C /repo reset -q; git -C /repo checkout -q -- .; git -C /repo clean -fdq
+git -C /repo reset -q --hard HEAD; git -C /repo clean -fdq
 [ -n "$(git -C /repo status --porcelain)" ] && echo "WARNING /repo not clean after undo"
 ( cd /verif && git checkout -q -- evidence 2>/dev/null )
